@@ -826,10 +826,37 @@ def run_case(drv, spec, ops_or_gen, exact, nops, seed, stats, every=None, mask="
     user_pulses: set = set()
     every = every or rng.choice([3, 5, 8, 1000])
 
+    held = {}
+
+    def fingerprint(samples):
+        """what a sample object says, now (per channel: padded arrays and EOM blocks)"""
+        out = []
+        for name, cs in sorted(samples.channel_samples.items()):
+            ext = cs.extend_duration(cs.duration + 7)
+            out.append((name, arr(ext.amp).tobytes(), arr(ext.det).tobytes(), arr(ext.phase).tobytes(),
+                        tuple((int(b.ti), None if b.tf is None else int(b.tf), float(b.detuning_off))
+                              for b in cs.eom_blocks)))
+        return out
+
     def checkpoint(i, mask_targets=None):
         res.checkpoints += 1
         fs = compare_model(drv, ls.real, weights, mask_targets, rng, stats)
         fs += monitor_seq(ls.real, user_pulses, rng, stats, known)
+        # a sample taken earlier is a value: building the sequence further must not change what it says
+        with warnings.catch_warnings():
+            warnings.simplefilter("ignore")
+            try:
+                if "s" in held and fingerprint(held["s"]) != held["fp"]:
+                    fs.append(Fail("monitor", "sample-aliases-sequence",
+                                   f"the samples taken after step {held['at']} changed when the sequence was built further "
+                                   f"(up to step {i})"))
+                    held.clear()
+                if "s" not in held and not ls.real.seq.is_parametrized():
+                    held["s"] = pulser.sampler.sample(ls.real.seq)
+                    held["fp"] = fingerprint(held["s"])
+                    held["at"] = i
+            except Exception:  # noqa: BLE001 — a sequence that cannot be sampled is judged by the other clauses
+                held.clear()
         res.fails += [(i, f) for f in fs]
 
     for i in range(n):
